@@ -45,7 +45,68 @@ pub fn wire_rt<T: DeserializeOwned + Serialize + PartialEq + std::fmt::Debug>(do
         (Ok(a), Ok(b)) => Some(*a == b),
         _ => None,
     };
-    json!({"server": side(server), "client": side(client), "smile_roundtrip": smile_ok, "twice_equal": twice})
+    // the same document through the reader entry points, and with every ASCII letter / digit / '-' / '.' / ':' inside strings written
+    // as a \uXXXX escape (the deserializer cannot borrow such strings): verdict and value must not depend on the spelling
+    let verdict = |r: &Result<T, serde_json::Error>| r.as_ref().ok().and_then(|v| conjure_serde::json::to_string(v).ok());
+    let base_s = verdict(&conjure_serde::json::server_from_str::<T>(doc));
+    let base_c = verdict(&conjure_serde::json::client_from_str::<T>(doc));
+    let escaped = escape_strings(doc);
+    let spellings = json!({
+        "server_reader": verdict(&conjure_serde::json::server_from_reader::<_, T>(doc.as_bytes())) == base_s,
+        "client_reader": verdict(&conjure_serde::json::client_from_reader::<_, T>(doc.as_bytes())) == base_c,
+        "server_slice": verdict(&conjure_serde::json::server_from_slice::<T>(doc.as_bytes())) == base_s,
+        "server_escaped": verdict(&conjure_serde::json::server_from_str::<T>(&escaped)) == base_s,
+        "client_escaped": verdict(&conjure_serde::json::client_from_str::<T>(&escaped)) == base_c,
+        "client_escaped_reader": verdict(&conjure_serde::json::client_from_reader::<_, T>(escaped.as_bytes())) == base_c,
+    });
+    json!({"server": side(server), "client": side(client), "smile_roundtrip": smile_ok, "twice_equal": twice, "spellings": spellings})
+}
+
+/// rewrites the characters of JSON string VALUES as \\uXXXX escapes; keys (number-like keys are parsed from the raw text by
+/// serde_json), existing escapes and everything outside strings are kept
+fn escape_strings(doc: &str) -> String {
+    let cs: Vec<char> = doc.chars().collect();
+    let mut out = String::new();
+    let mut i = 0;
+    while i < cs.len() {
+        if cs[i] != '"' {
+            out.push(cs[i]);
+            i += 1;
+            continue;
+        }
+        // string literal cs[i..=j]
+        let mut j = i + 1;
+        while j < cs.len() && cs[j] != '"' {
+            j += if cs[j] == '\\' { 2 } else { 1 };
+        }
+        let mut k = j + 1;
+        while k < cs.len() && cs[k].is_whitespace() {
+            k += 1;
+        }
+        let is_key = k < cs.len() && cs[k] == ':';
+        out.push('"');
+        let mut p = i + 1;
+        while p < j {
+            let c = cs[p];
+            if c == '\\' {
+                let n = if p + 1 < j && cs[p + 1] == 'u' { 6 } else { 2 };
+                for q in p..(p + n).min(j) {
+                    out.push(cs[q]);
+                }
+                p += n;
+                continue;
+            }
+            if !is_key && (c.is_ascii_alphanumeric() || "-.:+_=/".contains(c)) {
+                out.push_str(&format!("\\u{:04x}", c as u32));
+            } else {
+                out.push(c);
+            }
+            p += 1;
+        }
+        out.push('"');
+        i = j + 1;
+    }
+    out
 }
 
 fn h<T: Hash>(v: &T) -> u64 {
